@@ -30,6 +30,7 @@ pub struct Profile {
     pub w_acct: u32,   // percent of transaction ends followed by a page-accounting probe
     pub w_settle: u32, // weight of a settle sequence (drop everything, empty commits, probe)
     pub settle_commits: u32,
+    pub w_idle_nd: u32, // percent of transactions that are an idle non-durable commit followed by begin_read
 }
 
 impl Profile {
@@ -54,6 +55,7 @@ impl Profile {
             w_acct: 0,
             w_settle: 0,
             settle_commits: 3,
+            w_idle_nd: 0,
         };
         match name {
             "table" => base,
@@ -103,6 +105,7 @@ impl Profile {
                 ops_per_txn: 10,
                 w_nondurable: 40,
                 w_compact: 3,
+                w_idle_nd: 8,
                 ..base
             },
             "mixed" => Profile {
@@ -177,6 +180,7 @@ impl Profile {
                 ops_per_txn: 10,
                 w_acct: 100,
                 w_settle: 3,
+                w_idle_nd: 8,
                 ..base
             },
             other => panic!("unknown profile {other}"),
@@ -433,6 +437,15 @@ impl Gen {
     }
 
     fn begin_write(&mut self, rng: &mut StdRng) {
+        if rng.random_range(0..100) < self.p.w_idle_nd && self.readers.len() < 4 {
+            // a commit that changes nothing, and a reader that begins right after it
+            self.queue.push_back(json!({"e": "bw"}));
+            self.queue.push_back(json!({"e": "dur", "d": "none"}));
+            self.queue.push_back(json!({"e": "commit"}));
+            let h = self.fresh("r");
+            self.queue.push_back(json!({"e": "br", "h": h}));
+            return;
+        }
         self.queue.push_back(json!({"e": "bw"}));
         self.wtx_budget = rng.random_range(1..=self.p.ops_per_txn.max(1));
     }
